@@ -615,7 +615,8 @@ Proof.
   set (attrs := match an_attrs node with Some l => l | None => [] end) in *.
   set (s1 := match an_name node with
              | Some ((_ :: _) as nm) =>
-                 if negb (str_eqb nm s_div) || match filter is_primary attrs with [] => true | _ => false end
+                 if negb (str_eqb nm s_div)
+                    || negb (existsb (fun a => match aa_value a with Some _ => true | None => false end) (filter is_primary attrs))
                  then push_str c (io_before_name o ++ nm ++ io_after_name o) st else st
              | _ => st
              end).
